@@ -1,10 +1,14 @@
 SPECIFICATION Spec
 CONSTANTS
-  Addrs = {"a:1", "b:1", "c:1"}
-  Histories = {"fresh", "grew", "shrank"}
+  AddrSeq <- Universe4
+  Live = {"a:1", "b:1", "c:1"}
+  MaxMult = 2
+  MaxDup = 2
+  Views = {"sorted", "reversed", "rotated"}
   Traces = {"t1", "t2"}
   MaxSends = 3
-INVARIANTS OneOwner AtMostOneHop NoSelfForward
+  Rebuild = "always"
+INVARIANTS TypeOK TableIsCurrent SameListSameOwner OwnerListed OneOwner AtMostOneHop NoSelfForward
 ACTION_CONSTRAINT Dump
 VIEW View
 CHECK_DEADLOCK FALSE
